@@ -5,6 +5,7 @@ import (
 	"k8s.io/apimachinery/pkg/types"
 	"regexp"
 	"sort"
+	"time"
 
 	corev1 "k8s.io/api/core/v1"
 	metav1 "k8s.io/apimachinery/pkg/apis/meta/v1"
@@ -108,6 +109,12 @@ func (e *C20) one(ctx *core.Ctx) {
 	// them does not change the generation
 	c20uid++
 	meta := metav1.ObjectMeta{Name: "foo", Namespace: "ns", Labels: lblCopy, CreationTimestamp: metav1.NewTime(kit.T0), UID: types.UID(fmt.Sprintf("uid-%d", c20uid)), Generation: 1 + int64(r.Intn(3))}
+	if r.Intn(6) == 0 {
+		// being deleted behind a finalizer: the object is still served and still has a status to report
+		dt := metav1.NewTime(kit.T0.Add(time.Hour))
+		meta.DeletionTimestamp, meta.Finalizers = &dt, []string{"foregroundDeletion"}
+		ctx.Count("C20.terminating-objects")
+	}
 	keyStr := fmt.Sprint(sortedKV(lbls))
 	if special {
 		if ctx.Distinct("nontrivial", keyStr) {
